@@ -27,7 +27,6 @@ type Antispammer struct {
 	maintenanceInterval time.Duration
 	mu                  sync.RWMutex
 	sources             map[string]source
-	sourcesThresholds   map[string]int
 	exceptions          Exceptions
 	rules               Rules
 
@@ -42,7 +41,10 @@ type Antispammer struct {
 type source struct {
 	counter   *atomic.Int32
 	timestamp *atomic.Int64
-	name      string
+	// banThreshold is the threshold the source was banned with, 0 if the source is not banned.
+	// Events of one source may be limited by different thresholds (rules).
+	banThreshold *atomic.Int32
+	name         string
 }
 
 type Options struct {
@@ -68,7 +70,6 @@ func NewAntispammer(o *Options) *Antispammer {
 		threshold:           o.Threshold,
 		maintenanceInterval: o.MaintenanceInterval,
 		sources:             make(map[string]source),
-		sourcesThresholds:   make(map[string]int),
 		exceptions:          o.Exceptions,
 		rules:               o.Rules,
 		logger:              o.Logger,
@@ -153,19 +154,20 @@ func (a *Antispammer) IsSpam(id string, name string, isNewSource bool, event []b
 			src = newSrc
 		} else {
 			src = source{
-				counter:   &atomic.Int32{},
-				name:      name,
-				timestamp: &atomic.Int64{},
+				counter:      &atomic.Int32{},
+				name:         name,
+				timestamp:    &atomic.Int64{},
+				banThreshold: &atomic.Int32{},
 			}
 			src.timestamp.Add(timeEventSeconds)
 			a.sources[id] = src
-			a.sourcesThresholds[id] = threshold
 		}
 		a.mu.Unlock()
 	}
 
 	if isNewSource {
 		src.counter.Swap(0)
+		src.banThreshold.Store(0)
 		return false
 	}
 
@@ -175,6 +177,7 @@ func (a *Antispammer) IsSpam(id string, name string, isNewSource bool, event []b
 		x = src.counter.Inc()
 	}
 	if x == int32(threshold) {
+		src.banThreshold.Store(int32(threshold))
 		src.counter.Swap(int32(a.unbanIterations * threshold))
 		a.activeMetric.Set(1)
 		a.banMetric.WithLabelValues(name).Inc()
@@ -198,16 +201,27 @@ func (a *Antispammer) Maintenance() {
 
 		if x == 0 {
 			delete(a.sources, sourceID)
-			delete(a.sourcesThresholds, sourceID)
 			a.banMetric.DeleteLabelValues(source.name)
 			continue
 		}
 
-		threshold := a.sourcesThresholds[sourceID]
+		// the threshold of the rule that was in force when the source was created says nothing
+		// about its later events: decay the counter by the threshold the source was banned with
+		threshold := int(source.banThreshold.Load())
+		if threshold == 0 {
+			// not banned: what the source wrote in the finished interval does not count for the next one
+			source.counter.Swap(0)
+			continue
+		}
+
 		isMore := x >= threshold
 		x -= threshold
 		if x < 0 {
 			x = 0
+		}
+
+		if x < threshold {
+			source.banThreshold.Store(0)
 		}
 
 		if isMore && x < threshold {
